@@ -248,6 +248,24 @@ Theorem c07_install_l_conservative : forall b pkgs init,
 Proof. exact install_l_conservative. Qed.
 Print Assumptions c07_install_l_conservative.
 
+(* ... and on inputs made of regular files and directories only (packages and
+   initial tree) the declining model always answers: there every theorem of
+   this file about [install] is a theorem about [install_l], with a hypothesis
+   on the INPUT alone *)
+Theorem c07_install_plain_answers : forall b pkgs init,
+  plain_pkgs pkgs -> plain_fs init ->
+  (forall s, install b pkgs init <> RFail EUnsupported s) /\ install_l b pkgs init = install b pkgs init.
+Proof. exact install_plain_answers. Qed.
+Print Assumptions c07_install_plain_answers.
+
+Example c07_plain_inhabited :
+  plain_pkgs [ {| p_name := "a"; p_origin := "a"; p_replaces := []; p_files := wit_dirs ++ [wit_file_1000] |} ] /\ plain_fs [].
+Proof.
+  split.
+  - intros h Hh. cbn in Hh. repeat (destruct Hh as [Hh|Hh]; [subst h; cbn; auto|]). contradiction.
+  - intros p n G. discriminate.
+Qed.
+
 Example c07_install_l_extends : forall b, exists s f,
   install b [ {| p_name := "a"; p_origin := "a"; p_replaces := []; p_files := wit_dirs ++ [wit_usr_lib; wit_x_link] |};
               {| p_name := "b"; p_origin := "b"; p_replaces := []; p_files := wit_dirs ++ [wit_x_dir] |} ] [] = RFail EUnsupported s /\
